@@ -215,6 +215,67 @@ theorem assignments_fst (leaves : World (Int × List (Rec α))) :
     | nil => rfl
     | cons x xs ihx => simp_all
 
+/-- One level of `ref_migrate_native_rcb_direction` (`npart ≥ 2`, inside the precondition): after the cut, the
+    copy loop and the two `ref_mpi_balance` calls the front `npart/2` ranks hold exactly the records outside the
+    band `[value0, value1]`, the other ranks exactly those inside, and the result is the concatenation of the two
+    recursive results. -/
+theorem rcbDirection_unfold (hst : ∀ n : Nat, 2 ≤ n → (splitRatio (α := α) (n : Int)).1 = Status.ok)
+    (t : M9 α) (seed : Int) (twod : Bool) (npart : Nat) (offset dir : Int) (w : World (List (Rec α)))
+    (h2 : 2 ≤ npart) (hlen : npart ≤ w.length) (htot : (w.flatten.length : Int) ≤ INT_MAX) :
+    ∃ s0 s1 : World (List (Rec α)),
+      s0.length = npart / 2 ∧ s1.length = w.length - npart / 2
+      ∧ s0.flatten = w.flatten.filter (inOuter t (cutOf t seed npart dir w))
+      ∧ s1.flatten = w.flatten.filter (fun r => !inOuter t (cutOf t seed npart dir w) r)
+      ∧ ∀ r0 r1,
+          rcbDirection t seed twod (npart / 2) offset (nextDir (cutOf t seed npart dir w).dir twod) s0 = some r0 →
+          rcbDirection t seed twod (npart - npart / 2) (offset + ((npart / 2 : Nat) : Int))
+            (nextDir (cutOf t seed npart dir w).dir twod) s1 = some r1 →
+          rcbDirection t seed twod npart offset dir w = some (r0 ++ r1) := by
+  have hstat : (cutOf t seed npart dir w).status = Status.ok := by
+    unfold cutOf
+    exact hst npart h2
+  generalize hc : cutOf t seed npart dir w = c at hstat ⊢
+  have hperm := halves_perm t c w
+  have hlen0 : (((w.map (splitLocal t c)).map (·.1)).flatten.length : Int) ≤ INT_MAX := by
+    have := hperm.length_eq
+    simp only [List.length_append] at this
+    omega
+  have hlen1 : (((w.map (splitLocal t c)).map (·.2)).flatten.length : Int) ≤ INT_MAX := by
+    have := hperm.length_eq
+    simp only [List.length_append] at this
+    omega
+  obtain ⟨b0, hb0, hb0len, hb0flat, hb0out⟩ :=
+    balanceRecs_spec 0 (npart / 2 - 1) ((w.map (splitLocal t c)).map (·.1)) (Nat.zero_le _)
+      (by simp; omega) hlen0
+  obtain ⟨b1, hb1, hb1len, hb1flat, hb1out⟩ :=
+    balanceRecs_spec (npart / 2) (w.length - 1) ((w.map (splitLocal t c)).map (·.2)) (by omega)
+      (by simp; omega) hlen1
+  have hc0 : ((npart / 2 - 1 : Nat) : Int) = ((npart / 2 : Nat) : Int) - 1 := by omega
+  have hc1 : ((w.length - 1 : Nat) : Int) = (w.length : Int) - 1 := by omega
+  rw [hc0] at hb0
+  rw [hc1] at hb1
+  have hz : ((0 : Nat) : Int) = 0 := rfl
+  rw [hz] at hb0
+  simp only [List.length_map] at hb0len hb1len
+  refine ⟨b0.take (npart / 2), b1.drop (npart / 2), ?_, ?_, ?_, ?_, ?_⟩
+  · rw [List.length_take]; omega
+  · rw [List.length_drop]; omega
+  · rw [← halves_fst_flatten, ← hb0flat]
+    apply flatten_eq_take_of_tail_nil
+    intro r hk hr
+    exact hb0out r hr (Or.inr (by omega))
+  · rw [← halves_snd_flatten, ← hb1flat]
+    apply flatten_eq_drop_of_head_nil
+    intro r hk hr
+    exact hb1out r hr (Or.inl hk)
+  · intro r0 r1 hr0 hr1
+    rw [rcbDirection]
+    rw [dif_neg (by omega), dif_neg (by omega), if_neg (by omega)]
+    simp only []
+    rw [hc, if_neg (by rw [hstat]; decide), hb0, hb1]
+    simp only []
+    rw [hr0, hr1]
+
 /-- The recursion of `ref_migrate_native_rcb_direction`, for every scalar type whose `ref_migrate_split_ratio`
     does not refuse `npart ≥ 2` (hypothesis `hst`; true of ℝ, see `splitRatio_ok`), every `npart ≥ 1` not larger than
     the communicator, every distribution of fewer than `2^31` records (empty ranks included), every seed, direction
@@ -234,12 +295,9 @@ theorem rcbDirection_spec (hst : ∀ n : Nat, 2 ≤ n → (splitRatio (α := α)
   induction npart using Nat.strongRecOn with
   | ind npart ih =>
     intro offset dir w h1 hlen htot
-    rw [rcbDirection]
-    have h0 : npart ≠ 0 := by omega
-    rw [dif_neg h0]
     by_cases hone : npart = 1
     · subst hone
-      rw [dif_pos rfl]
+      rw [rcbDirection, dif_neg (by omega), dif_pos rfl]
       refine ⟨_, rfl, by simp, ?_, ?_, ?_⟩
       · rw [List.flatMap_map]
         simp only [List.flatMap_id']
@@ -254,67 +312,24 @@ theorem rcbDirection_spec (hst : ∀ n : Nat, 2 ≤ n → (splitRatio (α := α)
         subst hk
         match w, hlen with
         | x :: xs, _ => exact ⟨(k, x), by simp, rfl⟩
-    · rw [dif_neg hone]
-      have h2 : 2 ≤ npart := by omega
-      rw [if_neg (by omega)]
-      simp only []
-      have hstat : (cutOf t seed npart dir w).status = Status.ok := by
-        unfold cutOf
-        exact hst npart h2
-      rw [if_neg (by rw [hstat]; decide)]
-      generalize hc : cutOf t seed npart dir w = c
-      have hn0 : 1 ≤ npart / 2 := by omega
-      have hn0lt : npart / 2 < npart := by omega
-      -- the two balances
-      have hperm := halves_perm t c w
-      have hlen0 : (((w.map (splitLocal t c)).map (·.1)).flatten.length : Int) ≤ INT_MAX := by
-        have := hperm.length_eq
-        simp only [List.length_append] at this
-        omega
-      have hlen1 : (((w.map (splitLocal t c)).map (·.2)).flatten.length : Int) ≤ INT_MAX := by
-        have := hperm.length_eq
-        simp only [List.length_append] at this
-        omega
-      obtain ⟨b0, hb0, hb0len, hb0flat, hb0out⟩ :=
-        balanceRecs_spec 0 (npart / 2 - 1) ((w.map (splitLocal t c)).map (·.1)) (Nat.zero_le _)
-          (by simp; omega) hlen0
-      obtain ⟨b1, hb1, hb1len, hb1flat, hb1out⟩ :=
-        balanceRecs_spec (npart / 2) (w.length - 1) ((w.map (splitLocal t c)).map (·.2)) (by omega)
-          (by simp; omega) hlen1
-      have hc0 : ((npart / 2 - 1 : Nat) : Int) = ((npart / 2 : Nat) : Int) - 1 := by omega
-      have hc1 : ((w.length - 1 : Nat) : Int) = (w.length : Int) - 1 := by omega
-      rw [hc0] at hb0
-      rw [hc1] at hb1
-      have hz : ((0 : Nat) : Int) = 0 := rfl
-      rw [hz] at hb0
-      rw [hb0, hb1]
-      simp only []
-      simp only [List.length_map] at hb0len hb1len
-      -- sub-worlds
-      have hs0flat : (b0.take (npart / 2)).flatten = ((w.map (splitLocal t c)).map (·.1)).flatten := by
-        rw [← hb0flat]
-        apply flatten_eq_take_of_tail_nil
-        intro r hk hr
-        exact hb0out r hr (Or.inr (by omega))
-      have hs1flat : (b1.drop (npart / 2)).flatten = ((w.map (splitLocal t c)).map (·.2)).flatten := by
-        rw [← hb1flat]
-        apply flatten_eq_drop_of_head_nil
-        intro r hk hr
-        exact hb1out r hr (Or.inl hk)
+    · have h2 : 2 ≤ npart := by omega
+      obtain ⟨s0, s1, hs0len, hs1len, hs0flat, hs1flat, hrec⟩ :=
+        rcbDirection_unfold hst t seed twod npart offset dir w h2 hlen htot
+      generalize cutOf t seed npart dir w = c at hs0flat hs1flat hrec
+      have hperm : (s0.flatten ++ s1.flatten).Perm w.flatten := by
+        rw [hs0flat, hs1flat]; exact List.filter_append_perm _ _
+      have hl01 := hperm.length_eq
+      rw [List.length_append] at hl01
       obtain ⟨r0, hr0, hr0len, hr0perm, hr0rng, hr0sur⟩ :=
-        ih (npart / 2) hn0lt offset (nextDir c.dir twod) (b0.take (npart / 2)) hn0
-          (by rw [List.length_take]; omega) (by rw [hs0flat]; exact hlen0)
+        ih (npart / 2) (by omega) offset (nextDir c.dir twod) s0 (by omega) (by omega) (by omega)
       obtain ⟨r1, hr1, hr1len, hr1perm, hr1rng, hr1sur⟩ :=
-        ih (npart - npart / 2) (by omega) (offset + ((npart / 2 : Nat) : Int)) (nextDir c.dir twod)
-          (b1.drop (npart / 2)) (by omega) (by rw [List.length_drop]; omega) (by rw [hs1flat]; exact hlen1)
-      rw [hr0, hr1]
-      refine ⟨r0 ++ r1, rfl, ?_, ?_, ?_, ?_⟩
-      · rw [List.length_append, hr0len, hr1len, List.length_take, List.length_drop]
+        ih (npart - npart / 2) (by omega) (offset + ((npart / 2 : Nat) : Int)) (nextDir c.dir twod) s1
+          (by omega) (by omega) (by omega)
+      refine ⟨r0 ++ r1, hrec r0 r1 hr0 hr1, ?_, ?_, ?_, ?_⟩
+      · rw [List.length_append, hr0len, hr1len]
         omega
       · rw [List.flatMap_append]
-        refine List.Perm.trans (List.Perm.append hr0perm hr1perm) ?_
-        rw [hs0flat, hs1flat]
-        exact hperm
+        exact List.Perm.trans (List.Perm.append hr0perm hr1perm) hperm
       · intro l hl
         rcases List.mem_append.mp hl with hl | hl
         · have := hr0rng l hl
